@@ -42,14 +42,7 @@ theorem parse_print_blanks_exact (k m : Nat) (ss : List Step) (fns : List Fn)
     simpa [blanks_length, print] using this
   obtain ⟨hok, herr⟩ := path_core ⟨env, ext, cfg.accessor, (blanks k ++ (print (.mk .root ss fns) ++ blanks m)).toArray⟩
     cfg true .root ss fns hs henv'.2 hsfx [] none 0 0
-  have hexec : exec ⟨env, ext, cfg.accessor, (blanks k ++ (print (.mk .root ss fns) ++ blanks m)).toArray⟩
-      (tkPath k (.mk .root ss fns) ++ [.action 0]) =
-      (execFrom ⟨env, ext, cfg.accessor, (blanks k ++ (print (.mk .root ss fns) ++ blanks m)).toArray⟩
-        ⟨[], [], none, 0, 0⟩ (tkPath k (.mk .root ss fns) ++ [.action 0]) >>= fun st =>
-        match st.root with
-        | some (n :: rest) => (Except.ok (n :: rest) : M (List N))
-        | _ => .error (.panic .nilRoot)) := rfl
-  rw [hexec, Build.build, texts]
+  rw [exec_eq, Build.build, texts]
   cases hb : buildPath env cfg true (pathT (.mk .root ss fns)) with
   | ok ch =>
     obtain ⟨sp, hsp, hall, tb', te', ex⟩ := hok ch hb
